@@ -110,7 +110,7 @@ func (w *saoWorld) setup(accts []*Account) {
 			size = 2000000 // small provider: runs out of capacity
 		}
 		r.AddVstorage(p, size)
-		if i == 4 && w.rng.Intn(3) == 0 {
+		if i == 4 && w.rng.Intn(2) == 0 {
 			// a provider that keeps almost nothing liquid: renewals for a longer period put it into debt
 			if bal := w.c.App.BankKeeper.GetBalance(w.c.deliverCtx(), p.Addr, Denom).Amount.Int64(); bal > 500 {
 				r.Send(p, w.gateways[0], bal-int64(100+w.rng.Intn(300)))
@@ -675,7 +675,17 @@ func runSaoHistory(r *Recorder, rng *rand.Rand, accts []*Account, nOps int, long
 			case x < 95:
 				w.faults(weighted(rng, []string{"ordinary-node", "non-node", "wrong-order", "wrong-data", "wrong-shard", "wrong-provider", "recover-others", "recover-others"}, 45))
 			case x < 97:
-				r.ClaimReward(w.providers[rng.Intn(len(w.providers))])
+				// claims: prefer a provider with a recorded collateral debt (the claim then nets the debt out), and let it claim again in the next blocks
+				p := w.providers[rng.Intn(len(w.providers))]
+				if debts := w.c.App.NodeKeeper.GetAllPledgeDebt(w.c.deliverCtx()); len(debts) > 0 && rng.Intn(4) != 0 {
+					if a := w.acctByAddr(debts[rng.Intn(len(debts))].Sp); a != nil {
+						p = a
+					}
+				}
+				r.ClaimReward(p)
+				if rng.Intn(3) == 0 {
+					r.ClaimReward(p)
+				}
 			default:
 				p := w.providers[rng.Intn(len(w.providers))]
 				if rng.Intn(2) == 0 {
